@@ -597,7 +597,7 @@ def check_C11(ctx):
     ctl = enum_control_strings(ctx, 4 if q else 5)
     n = 300 if q else 10000
     trace = os.path.join(ctx.work, "xform.ndjson")
-    out = wv(["trace-xform", "inputs=ctl:%s,fixtures,file:%s,gen:%d,gen:%d:many,gen:%d:big" % (ctl, DODRIO, n, 6 if q else 60, n // 20), "seed=%d" % ctx.seed, "out=" + trace])
+    out = wv(["trace-xform", "inputs=ctl:%s,manyimp,fixtures,file:%s,gen:%d,gen:%d:many,gen:%d:big" % (ctl, DODRIO, n, 6 if q else 60, n // 20), "seed=%d" % ctx.seed, "out=" + trace])
     ctx.notes["harness"] = out.strip().splitlines()[-1]
     r, cases = judge_trace(ctx, "Trace_Xform", trace, slim=lambda c: {"id": c["id"], "source": c["source"], "variant": c.get("variant")})
     ok = [c for c in cases if c["outcome"] == "ok"]
@@ -620,7 +620,7 @@ def check_C10(ctx):
     model_check(ctx, "Body", cfg=cfg, workers=8, label="design-body")
     n = 36 if q else 1500
     trace = os.path.join(ctx.work, "dwarf.ndjson")
-    out = wv(["trace-dwarf", "inputs=gen:%d:small,gen:%d,gen:%d:many,fixtures" % (n, n // 3, 4 if q else 40), "seed=%d" % ctx.seed, "out=" + trace])
+    out = wv(["trace-dwarf", "inputs=manyimp,gen:%d:small,gen:%d,gen:%d:many,fixtures" % (n, n // 3, 4 if q else 40), "seed=%d" % ctx.seed, "out=" + trace])
     ctx.notes["harness"] = out.strip().splitlines()[-1]
     r, cases = judge_trace(ctx, "Trace_Dwarf", trace, slim=lambda c: {"id": c["id"], "source": c["source"]})
     ok = [c for c in cases if c["outcome"] == "ok"]
